@@ -1,7 +1,7 @@
 ---- MODULE JsonVal ----
 EXTENDS Integers, Sequences, SequencesExt, Bytes
 \* Abstract JSON value: [t, s, n, neg, items]
-\*   t \in {"null","true","false","int","str","arr","obj"}
+\*   t \in {"null","true","false","int","float","str","arr","obj"}   (float: s = its canonical decimal literal)
 \*   s: code points (str)        n, neg: magnitude and sign (int)
 \*   items: for arr a sequence of values; for obj a sequence of [k |-> cps, v |-> value]
 \* Rendering produces code points (all ASCII, since non-ASCII is escaped).
@@ -32,6 +32,7 @@ Render(v, d) ==
     [] v.t = "false" -> <<102,97,108,115,101>>
     [] v.t = "int"   -> (IF v.neg THEN <<45>> ELSE <<>>) \o DecStr(v.n)
     [] v.t = "str"   -> Str(v.s)
+    [] v.t = "float" -> v.s
     [] v.t = "arr"   ->
          IF v.items = <<>> THEN <<91, 93>>
          ELSE <<91, 10>>
